@@ -153,6 +153,19 @@ def check_updates_applied(ctx, facts):
     F = common.short_fn(b.name)
     ins = b.calls(re.compile(r"HashMap.*::insert$"))
     pm = b.calls(re.compile(r"CleanMarkerStore::persist_map$"))
+    ext = [c for c in b.calls(re.compile(r"::extend$")) if len(c.node["args"]) == 2 and "HashMap<" in b.local_ty(borrowed_local(b, c.node["args"][0]) or 0)]
+    if ext and pm and not ins:
+        # the merge in one go: `map.extend(updates.iter().cloned())` - every element of the argument, through 1:1 adapters only
+        c = ext[0]
+        src, _, _ = origins(b, c.node["args"][1], follow_all_calls=True)
+        lossy = [o.what for o in src if o.kind == "call" and not re.search(r"::(iter|into_iter|cloned|copied|map|deref|as_ref|clone|to_vec|as_slice)$", o.what)]
+        from_updates = any(o.kind == "arg" and o.what == (b.local_name(2) or 2) for o in src)
+        if from_updates and not lossy and all(b.dominates(c.bb, p_.bb) for p_ in pm):
+            ctx.ok("C17.1", F, "every update is merged into the map (extend over all of them) before it is persisted", b.relfile, c.line)
+        else:
+            ctx.violate("C17.1", F, "update-dropped-before-persist", b.relfile, c.line,
+                        "the merge of the updates into the marker map goes through %s: not every update handed in reaches the map that is written" % (lossy or "something other than the updates"))
+        return
     if not ins or not pm:
         ctx.anchor_missing("C17.1", "insert / persist_map in " + F)
         return
@@ -268,6 +281,33 @@ def check_state_discipline(ctx, facts):
         vsrc, _, _ = origins(up, s.node["args"][1])
         if any(o.kind == "field" and o.what[1] == "is_clean" for o in pr) and len(origin_args(vsrc)) == 1 and not origin_calls(vsrc):
             good = True
+    if not good and not stores:
+        # the store sits in a closure of update (`changes.then(|| { .. store(desired) .. })`): the value stored is a capture,
+        # and what is captured must be the argument itself
+        for cb in facts.closures_of(up):
+            for s in cb.calls(re.compile(r"Atomic(::<bool>)?::store$")):
+                stores.append(s)
+                pr = provenance(cb, s.node["args"][0])
+                k = None
+                cur = op_place(s.node["args"][1])
+                for _ in range(6):      # `*(env.k)` read through copies and derefs
+                    if cur is None:
+                        break
+                    if cur["l"] == 1 and cur["p"]:
+                        k = next((e["f"] for e in cur["p"] if isinstance(e, dict) and "f" in e), None)
+                        break
+                    if any(e != "*" for e in cur["p"]):
+                        break
+                    sd = cb.single_def(cur["l"])
+                    cur = op_place(sd[2]["rv"]["op"]) if sd and sd[1] == "assign" and sd[2]["rv"]["k"] == "use" else None
+                if k is None or not any(o.kind == "field" and o.what[1] == "is_clean" for o in pr):
+                    continue
+                for site, st in up.assigns():
+                    rv = st["rv"]
+                    if rv["k"] == "agg" and rv.get("akind") == "closure" and rv.get("name") == cb.name and k < len(rv["ops"]):
+                        vsrc, _, _ = origins(up, rv["ops"][k])
+                        if origin_args(vsrc) == {up.local_name(2) or 2} and not origin_calls(vsrc) and not any(o.kind == "const" for o in vsrc):
+                            good = True
     if not good and stores:
         # the request may be an enum: then the value stored must be decided by the request alone
         try:
